@@ -3,7 +3,9 @@ import hashlib, struct
 
 TOKENS = ["CAB"]
 RULE = ("CAB: structure-aware generator (0-5 folders, data 0..1000 bytes, no reserve header / 20-byte reserve / zero-padded reserve of "
-        "1..6144 bytes, already carrying one or two signatures, irregular OffsetFiles/TotalSize) plus a malformed stream (boundary values in "
+        "1..6144 bytes, already carrying one or two signatures, irregular OffsetFiles/TotalSize; structured cabinets with real CFFOLDER/CFFILE/CFDATA layout and combinations of the reserve "
+        "sizes cbCFHeader 0..6144 x cbCFFolder 0..255 x cbCFData 0..255, whose data blocks are walked by an independent reader in the input "
+        "and in the signed output) plus a malformed stream (boundary values in "
         "every header, reserve and signature-header field the parser reads, truncation at field boundaries, appended bytes); ops: digest "
         "(hash stream + Patched header), sign (MakePatch + real patch application + re-digest), resign (two rounds vs one), locate "
         "(cabfile.Parse signature), specdigest (C05: hash of the SPECIFICATION's digest input of the signed form vs. the real imprint; also on "
@@ -76,8 +78,87 @@ def _kv(tag):
     return dict(p.split("=") for p in tag.split(" ") if "=" in p)
 
 
+def walk(b):
+    """INDEPENDENT reader of a cabinet (MS-CAB layout, not relic's parser): header, CFRESERVE, CFFOLDER entries, CFFILE entries and
+    every CFDATA block, using the reserve sizes the header announces, the way cabextract / expand.exe do.  Returns None when the
+    bytes are not one well-formed stored/compressed single cabinet whose data blocks tile [end of CFFILE, cbCabinet) exactly;
+    else (files, folders) with folders = [(typeCompress, folder reserve, [(csum, cbData, cbUncomp, block reserve, data)])]."""
+    if len(b) < 36 or b[0:4] != b"MSCF":
+        return None
+    cb_cabinet, coff_files = struct.unpack("<I", b[8:12])[0], struct.unpack("<I", b[16:20])[0]
+    nfold, nfiles, flags = struct.unpack("<HHH", b[26:32])
+    if flags & 3 or cb_cabinet > len(b) or nfold == 0:
+        return None
+    pos, res_h, res_f, res_d = 36, 0, 0, 0
+    if flags & 4:
+        if len(b) < 40:
+            return None
+        res_h, res_f, res_d = struct.unpack("<HBB", b[36:40])
+        pos = 40 + res_h
+    folders = []
+    for _ in range(nfold):
+        if pos + 8 + res_f > cb_cabinet:
+            return None
+        start, ndata, typ = struct.unpack("<IHH", b[pos:pos + 8])
+        folders.append([start, ndata, typ, bytes(b[pos + 8:pos + 8 + res_f])])
+        pos += 8 + res_f
+    if pos != coff_files:
+        return None
+    files = []
+    for _ in range(nfiles):
+        if pos + 16 > cb_cabinet:
+            return None
+        cbfile, uoff, ifold = struct.unpack("<IIH", b[pos:pos + 10])
+        z = b.find(b"\0", pos + 16, min(pos + 16 + 257, cb_cabinet))
+        if z < 0:
+            return None
+        files.append((cbfile, uoff, ifold, bytes(b[pos + 10:z + 1])))
+        pos = z + 1
+    out = []
+    for start, ndata, typ, fres in folders:
+        if start != pos:
+            return None
+        blocks, unc = [], 0
+        for _ in range(ndata):
+            if pos + 8 + res_d > cb_cabinet:
+                return None
+            csum, cbdata, cbunc = struct.unpack("<IHH", b[pos:pos + 8])
+            if cbunc > 32768 or (typ & 15) == 0 and cbdata != cbunc or pos + 8 + res_d + cbdata > cb_cabinet:
+                return None
+            blocks.append((csum, cbdata, cbunc, bytes(b[pos + 8:pos + 8 + res_d]), bytes(b[pos + 8 + res_d:pos + 8 + res_d + cbdata])))
+            unc += cbunc
+            pos += 8 + res_d + cbdata
+        out.append((typ, fres, unc, blocks))
+    if pos != cb_cabinet:
+        return None
+    for cbfile, uoff, ifold, _ in files:
+        if ifold >= len(out) or uoff + cbfile > out[ifold][2]:
+            return None
+    return files, out
+
+
 def predicate(prop, op, il, mres, tag):
     f = op.split()
+    if f[1] == "sign" and il.startswith("ok ") and prop in ("C03", "C01"):
+        # judged on the implementation's output alone (whatever the model says): a standard reader must find in the signed
+        # cabinet the files, folders and data blocks (reserve bytes included) it found in the input, ending at cbCabinet,
+        # with the signature blob right behind
+        inp, out = _b(f[2]), _b(il.split(" ")[1])
+        wi = walk(inp)
+        if wi is not None:
+            wo = walk(out)
+            sig = _b(f[3])
+            if wo is None:
+                return ("Relic.Props.C03.cab_payload_preserved", "a cabinet whose CFDATA blocks a standard reader can walk",
+                        "the input's data blocks tile the cabinet up to cbCabinet; in the signed output they do not (block stride / "
+                        "reserve sizes in the header no longer match the blocks)")
+            if wo != wi:
+                return ("Relic.Props.C03.cab_payload_preserved", "same files, folders and data blocks",
+                        "a standard reader finds different CFFILE entries / CFDATA blocks in the signed cabinet")
+            cbc = struct.unpack("<I", out[8:12])[0]
+            if out[cbc:] != sig + b"\0" * ((len(sig) + 7) // 8 * 8 - len(sig)):
+                return ("Relic.Props.C03.cab_payload_preserved", "signature blob right behind the last data block",
+                        "bytes behind cbCabinet are not the (padded) signature blob")
     if f[1] == "specdigest" and prop == "C05" and mres.startswith("ok spec") and mres != "ok skip" and il != mres:
         return ("Relic.Props.C05.cab_digest_eq_spec", mres,
                 "the imprint the real code computed is not the hash of the specification's digest input (Relic.Spec.CabDigest) "
